@@ -17,7 +17,7 @@ pub fn check() -> Check {
         spec: CheckSpec {
             id: "C17",
             level: "exploration",
-            rule: "one case = one open/use/close cycle on a store directory that lives across the cycles of a worker: configuration drawn from {merge timer an hour away, 1-5 ms merge timer with triggers exceeded so that merges run (their writes delayed by the shim so that the drop can land inside one), 1-5 ms interval sync}; some sets/deletes (model kept across cycles); in a quarter of the quiet cycles a last merge or set in which one write or create fails with ENOSPC (the writer is then closed in the state a failed operation leaves it in); the owning object is dropped after a seeded 0-10 ms pause while 1-3 handle clones are kept. Oracle: every set/get/del/merge through a kept handle returns the 'closed' error, and between the begin and end marks of such a call the shim logs no directory-changing call by the calling thread; the directory is opened again at once (before the old background thread has gone) and every key reads as the model says; the thread named bitcask-backgro* of the closed instance is gone within 5 s although its next timer may be an hour away; after every 25 cycles, with all handles dropped, the number of background threads and of open file descriptors is back at the worker's baseline. Non-trivial/distinct = distinct (configuration kind, pause, drop landed during background activity or not, ops) cycles; cycles whose drop landed while the background thread was inside a merge are counted from the shim log.",
+            rule: "one case = one open/use/close cycle on a store directory that lives across the cycles of a worker: configuration drawn from {merge timer an hour away, 1-5 ms merge timer with triggers exceeded so that merges run (their writes delayed by the shim so that the drop can land inside one), 1-5 ms interval sync}; some sets/deletes (model kept across cycles); in a quarter of the quiet cycles a last merge or set in which one write or create fails with ENOSPC (the writer is then closed in the state a failed operation leaves it in); the owning object is dropped after a seeded 0-10 ms pause while 1-3 handle clones are kept (one drop in six happens while the owning thread unwinds from a panic). Oracle: every set/get/del/merge through a kept handle returns the 'closed' error, and between the begin and end marks of such a call the shim logs no directory-changing call by the calling thread; the directory is opened again at once (before the old background thread has gone) and every key reads as the model says; the thread named bitcask-backgro* of the closed instance is gone within 5 s although its next timer may be an hour away; after every 25 cycles, with all handles dropped, the number of background threads and of open file descriptors is back at the worker's baseline. Non-trivial/distinct = distinct (configuration kind, pause, drop landed during background activity or not, ops) cycles; cycles whose drop landed while the background thread was inside a merge are counted from the shim log.",
             assumptions: vec!["thread identity comes from /proc/self/task/*/comm, descriptors from /proc/self/fd", "5 s for the worker thread to go is wall clock with slack (it takes well under 10 ms here)"],
             death_is_violation: true,
         },
@@ -191,9 +191,25 @@ fn worker(ctx: &Ctx, out: &mut Out) {
         // towards a timer an hour away) is an observation and not the end of this worker
         let kv = st.kv.take();
         let (dtx, drx) = std::sync::mpsc::channel::<()>();
+        // one drop in six happens while the owning thread unwinds from a panic (the store is a local
+        // of a function that panics): closing must be as complete then as at any other time
+        let owner_panics = r.chance(1, 6);
+        if owner_panics {
+            out.count("drops_during_a_panic_of_the_owning_thread", 1);
+        }
         let dropper = std::thread::spawn(move || {
-            drop(kv);
-            let _ = dtx.send(());
+            struct Done(std::sync::mpsc::Sender<()>);
+            impl Drop for Done {
+                fn drop(&mut self) {
+                    let _ = self.0.send(());
+                }
+            }
+            // locals go in reverse order of declaration: the store first, then the signal
+            let _done = Done(dtx);
+            let _owned = kv;
+            if owner_panics {
+                panic!("verification harness: the thread that owns the store panics");
+            }
         });
         let dropped_in_time = drx.recv_timeout(Duration::from_secs(5)).is_ok();
         let drop_took = td.elapsed();
